@@ -356,7 +356,7 @@ func c14Run(ci interface{}, rec *Rec) {
 			cnf = append(cnf, l.Lits)
 		}
 		var ok bool
-		sat, _, ok = ref.DPLL(cnf, n, nil, 400_000_000)
+		sat, _, ok = ref.DPLL(cnf, n, nil, oracleBudget(400_000_000))
 		if !ok {
 			rec.Inconclusive("reference DPLL budget exhausted (n=%d)", n)
 			return
